@@ -111,6 +111,20 @@ func genOp(r *simfw.RNG, m string) Op {
 			q.Set("fields", simfw.Pick(r, []string{"name,born", "NAME"}))
 			o.Query = q.Encode()
 		}
+		if r.Chance(1, 2) {
+			q.Set("filter[kind]", simfw.Pick(r, []string{"cat", "dog", "bird"}))
+			if r.Bool() {
+				q.Set("filter[min]", simfw.Pick(r, []string{"3", "x"}))
+			}
+			o.Query = q.Encode()
+		}
+		if r.Chance(1, 2) {
+			q.Set("page[size]", simfw.Pick(r, []string{"10", "500"}))
+			if r.Bool() {
+				q.Set("page[after]", "tok"+m)
+			}
+			o.Query = q.Encode()
+		}
 		if r.Bool() {
 			o.Cookies = append(o.Cookies, [2]string{"sess", simfw.Pick(r, []string{"abc" + m, "abc" + m + "c", "BAD!"})})
 		}
@@ -131,6 +145,14 @@ func genOp(r *simfw.RNG, m string) Op {
 		if r.Bool() {
 			f.Add("tags", "a")
 			f.Add("tags", simfw.Pick(r, []string{"b", "a"}))
+		}
+		if r.Bool() {
+			// the same schema component behind another operation whose encoding joins the array values
+			f.Del("tags")
+			if r.Chance(2, 3) {
+				f.Set("tags", simfw.Pick(r, []string{"a,b", "a,a", "a"}))
+			}
+			return Op{Kind: "vreq", Router: rt, Method: "POST", Path: ver + "/form2", CT: "application/x-www-form-urlencoded", Body: f.Encode(), Multi: r.Bool()}
 		}
 		return Op{Kind: "vreq", Router: rt, Method: "POST", Path: ver + "/form", CT: "application/x-www-form-urlencoded", Body: f.Encode(), Auth: simfw.Pick(r, []string{"ok", "fail", "read_ok"}), Multi: r.Bool()}
 	case 10:
